@@ -10,12 +10,15 @@ import sys
 sys.path.insert(0, os.path.dirname(os.path.abspath(__file__)))
 import c08_ref  # noqa: E402
 
+from aiokafka.consumer import fetcher as _fetcher  # noqa: E402
 from aiokafka.consumer.fetcher import PartitionRecords  # noqa: E402
 from aiokafka.record.memory_records import MemoryRecords  # noqa: E402
 from aiokafka.record.default_records import DefaultRecordBatch  # noqa: E402
 from aiokafka.structs import TopicPartition  # noqa: E402
 
 TP = TopicPartition("t", 0)
+# Fetcher.__init__ maps the configuration strings to these module constants
+ISO = {c08_ref.RU: _fetcher.READ_UNCOMMITTED, c08_ref.RC: _fetcher.READ_COMMITTED}
 
 
 def hx(b):
@@ -33,7 +36,7 @@ def run_fetch(raw, aborted, f, iso):
             res["empty"] = True
             return res
         ab = None if aborted is None else [tuple(e) for e in aborted]
-        pr = PartitionRecords(TP, records, ab, f, None, None, True, iso)
+        pr = PartitionRecords(TP, records, ab, f, None, None, True, ISO[iso])
         for rec in pr:
             res["out"].append([rec.offset, hx(rec.key), hx(rec.value)])
             if pr.next_fetch_offset != rec.offset + 1:
@@ -62,7 +65,7 @@ def run_consume(q, o):
     """the real _consume_aborted_up_to on a PartitionRecords whose queue is q (already sorted by
     the constructor) — returns (queue afterwards, producers added in order)"""
     pr = PartitionRecords(TP, MemoryRecords(b""), [tuple(e) for e in q], 0, None, None, True,
-                          c08_ref.RC)
+                          ISO[c08_ref.RC])
     before = [list(e) for e in pr._aborted_transactions]
     pr._aborted_producers = RecordingSet()
     try:
